@@ -63,6 +63,16 @@ CHECKS = {
    text="Exploration. For every branching assignment v <= 8 (capped per D-set with a deterministic spread) on every connected enumerated 2D D-set up to 6 chambers (7 thorough), proptest-generated renumbered symbols with branching up to 100 and random 2D symbols up to 60 chambers, in PartialDSym and SimpleDSym: crate curvature = own per-chamber sum = 2 x orbifold Euler characteristic of the parsed orbifold_symbol string; the parsed symbol equals the harness's own invariants (cone multiset, boundary components as corner cycles modulo rotation AND reversal obtained by walking mirror sides, handles / crosscaps from the Euler characteristic and bipartiteness); curvature and normalised symbol are unchanged by renumbering and by dual() (also compared with the own dual), curvature is multiplied by the sheet number on harness-built 2-/3-sheeted covers; is_euclidean / is_hyperbolic / is_spherical follow the sign and the tear-drop / spindle rule.",
    note="Trusted: O-ORB2 of the harness. Connected symbols only; no m >= 3 restriction. Reversal of boundary components is allowed (two neutral mutants that reverse / re-normalise the traced boundary stay green).",
    design="§4 C08"),
+ "C11": dict(
+   technique="differential and validity testing over a presentation corpus with literature orders: exhaustive short subgroup generator sets + proptest-generated ones; oracle = own tracing of relators / generators plus own reference Todd-Coxeter (HLT) and right-coset bijection in the regular representation",
+   text="Exploration. For every corpus group with literature order (cyclic, dihedral, abelian, Coxeter A/B/D/F/H, von Dyck, binary polyhedral, dicyclic, Fibonacci F(2,5), PSL(2,7); up to order 1152 quick / 14400 thorough) crossed with the trivial subgroup, the whole group, ALL sets of at most two reduced words of length <= 2 and proptest-generated sets of up to three words of length <= 8, with the relators presented as given, rotated/inverted, or duplicated, and for all 2x2 sublattices of Z^2 (index |det|): the returned table is complete, every generator column is a permutation inverse to the inverse generator's column, the action is transitive, every relator closes at every row, every subgroup generator closes at row 0, the row count equals [G:H] (|H| = orbit of the identity in the harness's own regular representation, which is only trusted when it has the literature order), every coset representative traced from row 0 ends in its row, the table equals the harness's reference Todd-Coxeter table as a based action, and its rows biject onto the right cosets of H in the regular representation.",
+   note="Trusted: reference HLT Todd-Coxeter of the harness (validated against literature orders in the same run) and word tracing. Finite index only; the documented 100000-row limit panic is a discard. Relators are non-empty reduced words (caller precondition).",
+   design="§4 C11"),
+ "C12": dict(
+   technique="differential testing against brute-force enumeration of all transitive homomorphisms into S_k (own canonical form of actions), exhaustive over a presentation corpus x index bounds; oracle cross-checked against literature subgroup-count sequences",
+   text="Exploration. For every corpus presentation with <= 4 generators (free, free abelian, surface, Klein bottle, triangle, PSL2(Z), Baumslag-Solitar, Coxeter, polyhedral, dihedral, abelian, dicyclic groups) and every index bound k for which p(k)*(k!)^(gens-1) stays within the budget (3e6 quick, 3e8 thorough; e.g. F2 k <= 7, F3 k <= 5/6, Z^3 k <= 5/6): every listed table is complete, has <= k rows, is a transitive action in which every relator fixes every row; the canonical forms (minimum BFS relabelling over all base points, a complete invariant of the action up to equivalence) are pairwise different and, per index, equal as a set to the canonical forms of ALL transitive homomorphisms into S_j found by brute force (first generator up to cycle type, relator pruning). The brute force itself must reproduce the literature sequences for F1, F2, F3, Z^2, Z^3 and PSL2(Z), else the run is inconclusive.",
+   note="Trusted: own permutation brute force and BFS canonical form. Completeness is decided only up to the brute-force bound.",
+   design="§4 C12"),
 }
 
 NOT_YET = "check not built yet in this session (work in progress; see DESIGN.md §4 for its design)"
